@@ -313,6 +313,22 @@ fn bases(seed: u64, n_gen: usize, lider: bool) -> Vec<Base> {
         let o = GenOpts { positions: i % 2 == 0, shades: i % 3, schedules: true, odd: i % 4 == 0, ..Default::default() };
         models.push((format!("gen:{}:{}", seed, i), gen_model(&mut r, &o)));
     }
+    // louvres: the shipped cube with 34 identical slats stacked in front of its window, centred at several decimal coordinates (the
+    // obstacles' centres coincide on two axes: the partition of the acceleration structure degenerates in f32 for some of them)
+    if let Some((_, cubo)) = crate::corpus::real_models(false).into_iter().find(|(l, _)| l.contains("cubo")) {
+        for (k, x0) in [4.05f32, 3.1, 7.3, 2.35, 5.55, 6.7, 1.15, 8.45].iter().enumerate() {
+            let mut m = cubo.clone();
+            for j in 0..34 {
+                m.shades.push(bemodel::Shade {
+                    name: format!("lama{j}"),
+                    geometry: bemodel::WallGeom { tilt: 0.0, azimuth: 0.0, position: Some(bemodel::point![*x0, -1.0 - 0.1 * k as f32, 0.5 + 0.05 * j as f32]),
+                        polygon: vec![bemodel::point![0.0, 0.0], bemodel::point![2.1, 0.0], bemodel::point![2.1, 0.3], bemodel::point![0.0, 0.3]] },
+                    ..Default::default()
+                });
+            }
+            models.push((format!("louvre:{x0}"), m));
+        }
+    }
     // editor-minimal models: grown element by element from the default
     {
         let mut m = Model::default();
@@ -452,6 +468,8 @@ fn worker(args: &Args, from: usize, to: usize) -> i32 {
     0
 }
 
+static HANGS: std::sync::atomic::AtomicUsize = std::sync::atomic::AtomicUsize::new(0);
+
 pub fn run(args: &Args) -> i32 {
     if let Some(from) = args.extra.get("worker-from") {
         let to = args.extra.get("worker-to").and_then(|s| s.parse().ok()).unwrap_or(0);
@@ -520,8 +538,16 @@ pub fn run(args: &Args) -> i32 {
                             }
                         }
                         Err(mpsc::RecvTimeoutError::Timeout) => {
-                            // hang on case k — or a busy machine: the case is a hang only if it also exceeds 3 minutes in a worker of its own
+                            // hang on case k — or a busy machine: the case is a hang only if it also exceeds a minute in a worker of its own.
+                            // Once three cases have been confirmed that way the machine is not the reason: later expiries are reported at
+                            // once, and after 40 of them the rest of this worker's range is given up (one report per range is enough)
                             let _ = child.kill();
+                            let seen = HANGS.fetch_add(1, std::sync::atomic::Ordering::SeqCst);
+                            if seen >= 3 {
+                                tx.send((k, None)).ok();
+                                k = if seen >= 40 { to } else { k + 1 };
+                                break;
+                            }
                             let mut c2cmd = Command::new(&exe);
                             c2cmd.args(["c14", "--seed", &seed.to_string(), "--tier", &tier, "--worker-from", &k.to_string(), "--worker-to", &(k + 1).to_string()]);
                             if exhaustive {
@@ -538,7 +564,7 @@ pub fn run(args: &Args) -> i32 {
                                         }
                                     }
                                 });
-                                let deadline = std::time::Instant::now() + Duration::from_secs(180);
+                                let deadline = std::time::Instant::now() + Duration::from_secs(60);
                                 while let Ok(l) = r2.recv_timeout(deadline.saturating_duration_since(std::time::Instant::now())) {
                                     if let Some(rest) = l.strip_prefix("C14CASE ") {
                                         answer = Some(rest.to_string());
@@ -550,6 +576,9 @@ pub fn run(args: &Args) -> i32 {
                                 }
                                 let _ = c2.kill();
                                 let _ = c2.wait();
+                            }
+                            if answer.is_some() {
+                                HANGS.fetch_sub(1, std::sync::atomic::Ordering::SeqCst);
                             }
                             tx.send((k, answer)).ok();
                             k += 1;
